@@ -1063,6 +1063,34 @@ fn decode(rng: &mut Rng, n: usize, sink: &mut Sink, scripted: bool) {
             }
         }
     }
+    // long inputs: a multi-unit character at every offset up to 300 (block / chunk boundaries)
+    for pos in 0..300usize {
+        let mut units: Vec<u16> = vec![0x61; pos];
+        units.extend_from_slice(&[0xD83D, 0xDE00, 0x62, 0x63]);
+        let mut bytes: Vec<u8> = vec![0x61; pos];
+        bytes.extend_from_slice("😀é€".as_bytes());
+        if pos % 3 == 0 {
+            bytes.push(0xF0); // truncated lead at the very end
+            units.push(0xD800);
+        }
+        cnt += 2;
+        if scripted {
+            let hx: String = units.iter().map(|u| format!("{u:04x}")).collect();
+            sink.line("reset");
+            sink.line(&format!("from_utf16 0 {hx}"));
+            sink.line(&format!("from_utf16_lossy 1 {hx}"));
+            sink.line(&format!("from_utf8 2 {}", hex(&bytes)));
+            sink.line(&format!("from_utf8_lossy 3 {}", hex(&bytes)));
+        } else {
+            let a = LeanString::from_utf16(&units).ok().map(|s| s.as_bytes().to_vec());
+            let b = String::from_utf16(&units).ok().map(|s| s.into_bytes());
+            if a != b || LeanString::from_utf16_lossy(&units).as_bytes() != String::from_utf16_lossy(&units).as_bytes()
+                || LeanString::from_utf8_lossy(&bytes).as_bytes() != String::from_utf8_lossy(&bytes).as_bytes()
+            {
+                sink.fail(&["C16"], format!("long input with a multi-unit character at offset {pos}: differs from String's"));
+            }
+        }
+    }
     if !scripted {
         sink.oracle.evaluations += cnt;
         sink.oracle.distinct_nontrivial += cnt;
